@@ -365,8 +365,11 @@ private:
     struct pending_label_t
     {
         std::string text, path;
+        xta_part_t part{};
     };
     void invariant(std::vector<pending_label_t>& invariants, std::vector<pending_label_t>& rates);
+    /** Reads one label of an edge; its text is parsed once all labels of the edge have been read. */
+    void edge_label(std::vector<pending_label_t>& labels);
     /** Parse optional committed tag. */
     bool committed();
     /** Parse optional urgent tag. */
@@ -654,9 +657,30 @@ void XMLReader::invariant(std::vector<pending_label_t>& invariants, std::vector<
         if (std::string data; text(data)) {
             auto kind_sv = std::string_view{kind};
             if (kind_sv == "invariant")
-                invariants.push_back({data, path.str()});
+                invariants.push_back({data, path.str(), S_INVARIANT});
             else if (kind_sv == "exponentialrate")
-                rates.push_back({data, path.str()});
+                rates.push_back({data, path.str(), S_EXPONENTIAL_RATE});
+        }
+        xmlFree(kind);
+    }
+}
+
+void XMLReader::edge_label(std::vector<pending_label_t>& labels)
+{
+    if (begin(tag_t::LABEL)) {
+        char* kind = getAttribute("kind");
+        if (kind == nullptr)
+            throw TypeException{"A label must have a \"kind\" attribute"};
+        read();
+        /* Remember the text together with the path of its element (see
+         * transition()). */
+        if (std::string data; text(data)) {
+            static const auto map = std::map<std::string_view, xta_part_t>{
+                {"select", S_SELECT},         {"guard", S_GUARD},           {"synchronisation", S_SYNC},
+                {"assignment", S_ASSIGN},     {"probability", S_PROBABILITY},
+            };
+            if (auto part = map.find(kind); part != map.end())
+                labels.push_back({data, path.str(), part->second});
         }
         xmlFree(kind);
     }
@@ -1093,8 +1117,15 @@ bool XMLReader::transition()
             std::string to = target();
 
             parser->proc_edge_begin(from.c_str(), to.c_str(), control, actname.c_str());
-            while (label())
-                ;
+            /* The labels of an edge may come in any order in the file, but
+             * the select label declares names that the others use: read
+             * them all, then parse the select labels first. */
+            std::vector<pending_label_t> labels;
+            while (begin(tag_t::LABEL))
+                edge_label(labels);
+            std::stable_partition(labels.begin(), labels.end(), [](const auto& l) { return l.part == S_SELECT; });
+            for (const auto& l : labels)
+                parse_XTA(l.text.c_str(), parser, newxta, l.part, l.path);
             while (begin(tag_t::NAIL))
                 read();
             parser->proc_edge_end(from.c_str(), to.c_str());
